@@ -79,6 +79,9 @@ type Ann struct {
 type C20Case struct {
 	Ctr  string `json:"ctr"` // name of the container being created
 	Anns []Ann  `json:"anns"`
+	// Req is everything else in the request (the container's own spec, labels, other pod
+	// annotations). The expected adjustment does not depend on it.
+	Req *ReqCtx `json:"req,omitempty"`
 }
 
 func (a *Ann) key() string {
@@ -450,6 +453,9 @@ func (a *Ann) corrupt(t *rapid.T, kind string) string {
 			hard = soft - 1
 		}
 		el.put("soft", nU(soft))
+		// keep the offending values in the case (informational; they also let the request
+		// context be built around them)
+		a.Rlimits[pick].Hard, a.Rlimits[pick].Soft = u64p(hard), u64p(soft)
 		if hard == 0 && rapid.Bool().Draw(t, "omithard") {
 			// drop the field: documented to mean 0
 			keys, items := []string{}, []*node{}
@@ -585,7 +591,10 @@ func genC20(t *rapid.T) C20Case {
 			a.fill(t, 1)
 			a.Text = a.corrupt(t, a.Ill)
 			// the values of an ill-formed payload play no role in the expectation
-			a.Devices, a.CDI, a.Mounts, a.Rlimits = nil, nil, nil, nil
+			a.Devices, a.CDI, a.Mounts = nil, nil, nil
+			if a.Ill != "hard_lt_soft" {
+				a.Rlimits = nil
+			}
 		case "empty":
 			a.Text = renderDoc(t, a.node(), a.Style)
 		default:
@@ -600,6 +609,8 @@ func genC20(t *rapid.T) C20Case {
 		rapid.SliceOfNDistinct(annGen, 6, 20, byKey),
 		rapid.SliceOfNDistinct(annGen, 6, 20, byKey),
 	).Draw(t, "anns")
+	// the rest of the request: nil = a bare container and pod (shrinks to that)
+	c.Req = rapid.OneOf(rapid.Just((*ReqCtx)(nil)), genReqCtx(c), genReqCtx(c), genReqCtx(c)).Draw(t, "req")
 	return c
 }
 
